@@ -132,6 +132,15 @@ def main():
         inputs.append(("fixed", "model", t))
         inputs.append(("fixed", "manifest", t))
 
+    # ---- (4) Cross.tla: every kind of broken type at every kind of use site, every expression form over every field type
+    fcross = os.path.join(wd, "cross.ndjson")
+    resx = tlc_eval("Cross", timeout=600, workdir=scratch("verif-c10-tlcx-"), env={"VERIF_OUT": fcross})
+    cross = [json.loads(l) for l in open(fcross) if l.strip()]
+    c.cov["tlc_cross_cases"] = len(cross)
+    c.cov["tlc_cross_controls"] = sum(1 for x in cross if x["must_accept"])
+    for x in cross:
+        inputs.append(("cross:%s@%s%s" % (x["what"], x["site"], "!" if x["must_accept"] else ""), "model", x["text"]))
+
     # vacuity guard: the uncorrupted base documents are accepted
     for i, (kind, t) in enumerate(DOCS):
         root = os.path.join(sc, "base%d" % i)
@@ -164,6 +173,8 @@ def main():
             text = data.decode("utf-8", "replace") if isinstance(data, bytes) else data
             replay = {"file": "m.yml" if kind == "model" else "_package.yml", "content": text[:3000], "command": cmd, "observed": o}
             cls = name.split(":")[0] + ":" + (name.split(":")[1] if ":" in name else "") + ":" + kind
+            if name.startswith("cross:") and name.endswith("!") and o["exit"] != 0:
+                raise Inconclusive("Cross.tla control %s is not accepted by yardl (the cross cases would be vacuous): %s" % (name, o["stderr"][-400:]))
             if o["exit"] == -9:
                 c.violation("C10:%s:hang" % cls, "`yardl %s` did not terminate within 20 s" % cmd, replay)
             elif o["panic"] or o["exit"] not in (0, 1):
@@ -181,7 +192,7 @@ def main():
     c.finish(rule="Corrupt.tla: every node of three base documents (two model files, one manifest) x every applicable structural corruption "
                   "(kind swaps incl. odd-length flow sequences under every tag, missing/duplicate/unknown keys, nulls, 13 wrong tags, 30 odd scalars "
                   "incl. truncated type and expression syntax, deep nesting); plus seeded byte-level mutations and fixed pathological files; each "
-                  "input is given to `yardl validate` and `yardl generate`; allowed outcomes: exit 0, or exit 1 with an error naming a file; "
+                  "input is given to `yardl validate` and `yardl generate`; Cross.tla: every type expression that breaks one language rule (and valid controls) x every use site of a type, and every computed-field expression form x every field type shape; allowed outcomes: exit 0, or exit 1 with an error naming a file; "
                   "distinct = inputs")
 
 
